@@ -259,6 +259,25 @@ def stars_extra(kind=SMG):
     for cls, cel, n in STAR_CLASSES:
         out.append(star(cls, cel, [LIG[i] for i in range(n)], None, kind))
         out.append(star(cls, cel, [LIG[0]] * n, None, kind))
+    # two lone pairs on one centre (identical placeholders: the centre is its own mirror image) in several spellings
+    for t in ((0, 1, 2, None, None), (0, None, 1, None, 2), (0, None, None, 2, 1), (0, 2, None, 1, None)):
+        for p in (1, -1):
+            out.append(mk(kind, [(0, "O"), (1, "H"), (2, "F")], [(0, 1), (0, 2)], astereo=[("Tetrahedral", t, p)]))
+    # T-shaped ClF2X with two equatorial lone pairs, XeF4-like octahedron with two trans lone pairs
+    out.append(mk(kind, [(0, "Cl"), (1, "F"), (2, "F"), (3, "Br")], [(0, 1), (0, 2), (0, 3)],
+                  astereo=[("TrigonalBipyramidal", (0, 1, 2, 3, None, None), 1)]))
+    out.append(mk(kind, [(0, "Cl"), (1, "F"), (2, "F"), (3, "Br")], [(0, 1), (0, 2), (0, 3)],
+                  astereo=[("TrigonalBipyramidal", (0, 2, 1, None, 3, None), 1)]))
+    out.append(mk(kind, [(0, "Xe"), (1, "F"), (2, "F"), (3, "Cl"), (4, "Cl")], [(0, 1), (0, 2), (0, 3), (0, 4)],
+                  astereo=[("Octahedral", (0, None, None, 1, 3, 2, 4), 1)]))
+    out.append(mk(kind, [(0, "Xe"), (1, "F"), (2, "F"), (3, "Cl"), (4, "Cl")], [(0, 1), (0, 2), (0, 3), (0, 4)],
+                  astereo=[("Octahedral", (0, None, None, 1, 2, 3, 4), -1)]))
+    # diazene X-N=N-Y: one lone pair on each end, E and Z, written from either end
+    az = [(0, "N"), (1, "N"), (2, "H"), (3, "F")]
+    ab = [(0, 1), (0, 2), (1, 3)]
+    for t in ((2, None, 0, 1, 3, None), (2, None, 0, 1, None, 3), (None, 2, 0, 1, None, 3), (3, None, 1, 0, None, 2),
+              (None, 3, 1, 0, 2, None)):
+        out.append(mk(kind, az, ab, bstereo=[("PlanarBond", t, 0)]))
     return out
 
 
